@@ -135,7 +135,7 @@ def random_type(rng, traits, opts=None):
         pool.append(k)
     if not pool:
         pool = [kinds["Ct"] if want_copy else kinds["T"]]
-    weights = [1 if k.dom == 1 else (4 if k.key in ("T", "Ct", "G") else 2) for k in pool]
+    weights = [1 if k.dom == 1 else (8 if k.key == "P" else 4 if k.key in ("T", "Ct", "G") else 2) for k in pool]
 
     # -- shape ----------------------------------------------------------------------------------
     need_field = bool(tset & {"Deref", "DerefMut", "Into"})
@@ -196,13 +196,23 @@ def random_type(rng, traits, opts=None):
             unit_only = all(v.style == "unit" for v in td.variants)
             if (rep != "C" or unit_only) and rng.random() < 0.7:
                 signed = rep in ("i16", "i64", "isize", "C")
-                pool_d = list(range(-20, 100)) if signed else list(range(0, 120))
-                ds = rng.sample(pool_d, nv)
-                if rng.random() < 0.5:
-                    ds.sort()
-                for v, d in zip(td.variants, ds):
-                    v.disc = str(d)
-                td.notes["dvals"] = ds
+                # explicit values for some variants only (the others continue from their predecessor), drawn from a small
+                # range so that discriminant values and declaration indices overlap without being equal
+                for _ in range(20):
+                    cur, ds, txt = -1, [], []
+                    for i in range(nv):
+                        if rng.random() < 0.55:
+                            cur = rng.randint(-3 if signed else 0, nv + 3)
+                            txt.append(str(cur))
+                        else:
+                            cur += 1
+                            txt.append(None)
+                        ds.append(cur)
+                    if len(set(ds)) == nv and (signed or min(ds) >= 0):
+                        for v, t in zip(td.variants, txt):
+                            v.disc = t
+                        td.notes["dvals"] = ds
+                        break
 
     td.notes["kinds"] = kinds
     td.notes["garg"] = garg
@@ -324,6 +334,9 @@ def decorate(rng, td, o):
                         s["method"] = RT + rng.choice(methods)
                 elif r < pa * 0.4:
                     s["ignore"] = True
+                    if rng.random() < 0.3 and f.kind.dom > 1 and f.kind.key != "ArrN":
+                        # `ignore` next to `method`: the field is ignored all the same
+                        s["method"] = RT + rng.choice(methods)
                 elif r < pa * 0.8 and f.kind.dom > 1 and "ArrN" != f.kind.key:
                     s["method"] = RT + rng.choice(methods)
                 elif r < pa * 0.9:
@@ -386,6 +399,8 @@ def decorate(rng, td, o):
                 r = rng.random()
                 if r < pa * 0.3:
                     s["ignore"] = True
+                    if rng.random() < 0.3 and f.kind.dom > 1:
+                        s["method"] = RT + "fmt_alt"
                 elif r < pa * 0.6 and f.kind.dom > 1:
                     s["method"] = RT + "fmt_alt"
                 elif r < pa * 0.7:
